@@ -267,6 +267,13 @@ func c14Category(path string) string {
 
 var c14Skipped []string
 
+// The only exported fields a record need not hold.
+var c14NotPersisted = map[string]string{
+	"States":           "the state table: configuration, rebuilt from role and type on load",
+	"Data.LastErr":     "the Go error value; its text is held as LastErrString (cancel reason)",
+	"Data.LastMessage": "interface-typed and never assigned by the code: always null",
+}
+
 func c14Leaves() []c14Leaf {
 	var out []c14Leaf
 	var walk func(t reflect.Type, prefix string, idx [][]int)
@@ -277,12 +284,9 @@ func c14Leaves() []c14Leaf {
 			if !f.IsExported() {
 				continue
 			}
-			if f.Tag.Get("json") == "-" {
-				c14Skipped = append(c14Skipped, name+" (json:\"-\": deliberately not part of the record)")
-				continue
-			}
-			if f.Type.Kind() == reflect.Interface {
-				c14Skipped = append(c14Skipped, name+" (interface-typed, never assigned by the code: always null)")
+			// which fields the record must hold is decided here, from the statement — not by the code's json tags
+			if why, ok := c14NotPersisted[name]; ok {
+				c14Skipped = append(c14Skipped, name+" ("+why+")")
 				continue
 			}
 			cur := append(append([][]int{}, idx[:len(idx)-1]...), append(append([]int{}, idx[len(idx)-1]...), i))
@@ -962,6 +966,11 @@ func TestC14(t *testing.T) {
 	rep.Alphabets["mutation.bytes"] = []string{"nil", "empty", "32 bytes", "1 KiB of ff"}
 	rep.Alphabets["mutation.pointers"] = []string{"nil", "typical message / zero id / ff id"}
 	rep.Extra["statement_categories_covered(fields)"] = cats
+	for _, c := range []string{"messages", "keys", "preimages", "heights", "anchor flag", "transaction ids", "cancel reasons", "role", "type", "state", "next message"} {
+		if cats[c] == 0 {
+			rep.Internal = append(rep.Internal, "no field found for the statement's category "+c+" (fields renamed? update c14Category)")
+		}
+	}
 	// a synthetic record in which every message is present, so that every nested field is reachable
 	full := &swap.SwapStateMachine{SwapId: c21ID(0x33), Type: swap.SWAPTYPE_OUT, Role: swap.SWAPROLE_SENDER, Previous: "State_SwapOutSender_AwaitTxConfirmation", Current: "State_SwapOutSender_ClaimSwap"}
 	full.Data = &swap.SwapData{PeerNodeId: scn.IDB, InitiatorNodeId: scn.IDA, CreatedAt: 1_700_000_000, Role: swap.SWAPROLE_SENDER, FSMState: full.Current,
@@ -1057,6 +1066,7 @@ func TestC14(t *testing.T) {
 		"Data.LastMessage (interface-typed) is never assigned by the code and therefore always persisted as null; not enumerated",
 		"strings that are not valid UTF-8 are outside the alphabet (JSON cannot carry them)",
 	}
+	rep.Assumptions = append(rep.Assumptions, "the collecting histories contain same-instant races the scenario engine does not order (e.g. a restart or a 11-minute jump while messages and timers are pending), so the set of collected records / shapes varies slightly between runs; every collected record is judged, the verdict does not depend on which ones were collected")
 	rep.States = len(shapes) + len(rep.Outcomes)
 	rep.Need = []string{
 		"real_record:reload_reencode_byte_identical", "mutation:one_field:roundtrip_identical", "mutation:two_fields:roundtrip_identical",
